@@ -6,7 +6,7 @@ use crate::gen::{cap, stems_in, Stems};
 use crate::ir::DefKind;
 use crate::report::{Ctx, Report, Spec};
 use crate::rng::Rng;
-use crate::sut::{LangCfg, LangId, SrcFile};
+use crate::sut::{run_lib, LangCfg, LangId, SrcFile};
 use serde_json::json;
 use std::collections::BTreeMap;
 
@@ -307,6 +307,83 @@ fn judge(case: &Case<Model>, rep: &mut Report) {
     }
 }
 
+/// Items whose names differ only in the case of their letters (`UserId` and `UserID`, `ApiKey` and `APIKey`, `point` and
+/// `Point`) are different items: each is emitted once, and a definition that uses one of them comes after that one.
+/// Judged on exact names (the stems of the generated workload cannot tell such a pair apart).
+fn case_twins(ctx: &Ctx, rep: &mut Report) {
+    let pairs = [("UserId", "UserID"), ("ApiKey", "APIKey"), ("Point", "point"), ("Xml", "XML")];
+    let langs = [LangId::Ts, LangId::Kotlin, LangId::Swift, LangId::Go, LangId::Python];
+    struct Twin {
+        lang: LangId,
+        names: [String; 3],
+        source: String,
+        text: Option<String>,
+        outcome: String,
+    }
+    let mut runs: Vec<Twin> = vec![];
+    for (a, b) in pairs {
+        for kind in 0..2 {
+            // the user refers to both twins; `first` is the twin its first field names
+            for first in 0..2 {
+                let (x, y) = if first == 0 { (a, b) } else { (b, a) };
+                let user = format!("#[typeshare]\npub struct Holder {{\n    pub one: {x},\n    pub more: Vec<{y}>,\n}}\n");
+                let def = |n: &str, k: usize| if kind == 0 { format!("#[typeshare]\npub struct {n} {{\n    pub v{k}: u32,\n}}\n") } else { format!("#[typeshare]\npub type {n} = Vec<u{}>;\n", 8 << k) };
+                let items = [user, def(a, 0), def(b, 1)];
+                for perm in [[0usize, 1, 2], [0, 2, 1], [1, 0, 2], [1, 2, 0], [2, 0, 1], [2, 1, 0]] {
+                    let source: String = perm.iter().map(|&i| format!("{}\n", items[i])).collect::<String>().replace("pub struct point", "#[allow(non_camel_case_types)]\npub struct point");
+                    for lang in langs {
+                        let o = run_lib(&[SrcFile { path: "src/lib.rs".into(), source: source.clone() }], lang, &LangCfg::basic(lang), false, &[]);
+                        rep.count("case_twin_runs", 1);
+                        runs.push(Twin { lang, names: ["Holder".to_string(), a.to_string(), b.to_string()], source: source.clone(), text: o.single().map(|t| t.to_string()), outcome: o.describe() });
+                    }
+                }
+            }
+        }
+    }
+    let items: Vec<(LangId, &str)> = runs.iter().map(|r| (r.lang, r.text.as_deref().unwrap_or(""))).collect();
+    let facts = crate::facts::parse_many(ctx, "c11-twins", &items, false);
+    for (r, f) in runs.iter().zip(facts.iter()) {
+        let lname = r.lang.name();
+        let detail = |extra: serde_json::Value| json!({"language": lname, "source": r.source, "output": r.text, "extra": extra});
+        if r.text.is_none() {
+            rep.inconclusive("case-twins-not-generated", json!({"language": lname, "outcome": r.outcome, "source": r.source}));
+            continue;
+        }
+        let Some(file) = f.file() else {
+            rep.inconclusive(&format!("output-not-parsed-{lname}"), json!({"status": format!("{:?}", f.status).chars().take(300).collect::<String>(), "source": r.source}));
+            continue;
+        };
+        rep.eval(1);
+        rep.cell(format!("case-twins|{lname}|{}", r.names[1]));
+        let at = |n: &str| -> Vec<usize> { file.defs.iter().filter(|d| d.kind != DefKind::Helper && d.name == n).map(|d| d.start).collect() };
+        let pos: Vec<Vec<usize>> = r.names.iter().map(|n| at(n)).collect();
+        let mut ok = true;
+        for (n, p) in r.names.iter().zip(pos.iter()) {
+            if p.len() != 1 {
+                ok = false;
+                rep.violate(
+                    format!("C11|permutation|{}|names-differing-in-case", if p.is_empty() { "definition-lost" } else { "definition-duplicated" }),
+                    format!("{lname}: item {n} is defined {} times in the output", p.len()),
+                    detail(json!({"item": n, "definitions": file.defs.iter().map(|d| d.name.clone()).collect::<Vec<_>>()})),
+                );
+            }
+        }
+        if !ok {
+            continue;
+        }
+        for k in 1..3 {
+            rep.count("edges_checked", 1);
+            if pos[k][0] > pos[0][0] {
+                rep.violate(
+                    "C11|order|names-differing-in-case".to_string(),
+                    format!("{lname}: Holder is emitted before {} although it refers to it (another item is called {})", r.names[k], r.names[3 - k]),
+                    detail(json!({"order": file.defs.iter().filter(|d| d.kind != DefKind::Helper).map(|d| d.name.clone()).collect::<Vec<_>>()})),
+                );
+            }
+        }
+    }
+}
+
 pub fn run(ctx: &Ctx) -> (Spec, Report) {
     // exhaustive part: all edge sets on 3 source-capable items (2^9 graphs), thorough: 4 items sampled by bitmask stride
     let n_exh = 512usize;
@@ -412,9 +489,11 @@ pub fn run(ctx: &Ctx) -> (Spec, Report) {
         },
         judge,
     );
+    let mut rep = rep;
+    case_twins(ctx, &mut rep);
     let spec = Spec {
         level: "exploration",
-        rule: format!("all 512 edge sets over 3 items (exhaustive) plus {} random graphs on 1-12 items (DAGs, diamonds, chains, self-loops, cycles; an eighth of the item names begin with a lower-case letter), references placed in struct fields, newtype and struct variants, alias targets and const types, through direct / Vec / Option / HashMap key / value / array / slice / generic argument / nested wrappers, any source order, a fifth of the types serde-renamed; TS, Kotlin, Swift, Go, Python; oracle: every item defined exactly once; for acyclic graphs every definition after each same-file definition it refers to (Python additionally imported under stub pydantic); distinct = (language, item count, acyclic?) and (edge position, wrapper, target renamed?)", n - n_exh),
+        rule: format!("4 pairs of items whose names differ only in letter case (structs and aliases, both used by a third item, all 6 source orders); all 512 edge sets over 3 items (exhaustive) plus {} random graphs on 1-12 items (DAGs, diamonds, chains, self-loops, cycles; an eighth of the item names begin with a lower-case letter), references placed in struct fields, newtype and struct variants, alias targets and const types, through direct / Vec / Option / HashMap key / value / array / slice / generic argument / nested wrappers, any source order, a fifth of the types serde-renamed; TS, Kotlin, Swift, Go, Python; oracle: every item defined exactly once; for acyclic graphs every definition after each same-file definition it refers to (Python additionally imported under stub pydantic); distinct = (language, item count, acyclic?) and (edge position, wrapper, target renamed?)", n - n_exh),
         assumptions: vec!["definition positions are those of the principal definitions recovered by the output parsers; Scala does not use the shared ordering and is not judged".into()],
         exhaustive: Some(false),
     };
